@@ -456,11 +456,35 @@ func genModelFontOpt(rng *rand.Rand, nested bool) *modelFont {
 		w.Glyphs = append(w.Glyphs, genModelGlyph(rng, name, lay, mf.feat))
 	}
 	// encoding
-	encKind := rng.IntN(3)
+	encKind := rng.IntN(4)
 	switch encKind {
 	case 0:
 		w.StdEncoding = true
 		want.Encoding = append([]string(nil), std...)
+	case 3:
+		// an explicit array that agrees with the standard encoding wherever that assigns
+		// a glyph, plus glyphs of this font at codes the standard leaves empty (code 0 first)
+		w.Encoding = append([]string(nil), std...)
+		placed := 0
+		for _, g := range w.Glyphs {
+			if g.Name == ".notdef" || codeOf[g.Name] != 0 || g.Name == std[0] {
+				continue
+			}
+			at := 0
+			if placed > 0 {
+				at = []int{1, 31, 127, 128, 160, 255}[rng.IntN(6)]
+				if std[at] != ".notdef" || w.Encoding[at] != ".notdef" {
+					continue
+				}
+			}
+			w.Encoding[at] = g.Name
+			placed++
+			if placed >= 3 {
+				break
+			}
+		}
+		mf.feat["standard encoding plus glyphs at empty codes"] = true
+		want.Encoding = append([]string(nil), w.Encoding...)
 	default:
 		w.Encoding = make([]string, 256)
 		for i := range w.Encoding {
